@@ -22,6 +22,8 @@ KINDS = [
     'for [i, v] in [1] {\n    (fn () {\n        break\n    })()\n}',
     'fn area([w, h]) {\n    return w * h\n}\nprint(area([1, 2, 3]))', 'fn show({name}) {\n    return name\n}\nprint(show({}))', 'fn pair(a, [b, ..r]) {\n    return a\n}\nprint(pair(1, 2))',
     'fn wrap(v) {\n    return area2(v)\n}\nfn area2([w, h]) {\n    return w\n}\nprint(wrap([1]))', 'n2 := 1\nn2 += nope', 'lst[0] += nope', 'obj.a -= two(1)', 'n3 := 1\nn3 *= [1][3]',
+    'fn down(n) {\n    if n == 0 {\n        return 1 + ""\n    }\n    return down(n - 1)\n}\nprint(down(3))', 'fn ping(n) {\n    if n == 0 {\n        return nope\n    }\n    return pong(n - 1)\n}\nfn pong(n) {\n    return ping(n)\n}\nprint(ping(2))',
+    'print(1)\nprint([1, "two", "\xc3\xa9"[0], 4])', 'print(2)\nprint({"a": [1], "b": "\xc3\xa9"[1]})',
     'print($"a${1 +}b")', 'print($"${)}")', 'print($"${1 ` 2}")',
 ]
 HEAD = ['lst := [1, 2]', 'obj := {"a": 1, "f": fn (v) {', '    return v', '}}', 'fn two(a, b) {', '    return a', '}', 'fn rest1(a, ..r) {', '    return a', '}']
